@@ -42,25 +42,29 @@ Proof.
   rewrite firstn_app, firstn_all, Nat.sub_diag. cbn [firstn]. apply app_nil_r.
 Qed.
 
-Lemma place_bytes : forall ls off pre, N.of_nat (length pre) = off ->
-  Forall (fun x => sub (pre ++ flat_map (fun x => serialize (fst x)) (place_leaves ser_size off ls)) (fst (snd x)) (snd (snd x)) = serialize (fst x))
-         (place_leaves ser_size off ls).
+Lemma place_bytes (f : list entry -> bytes) : forall ls off pre, N.of_nat (length pre) = off ->
+  Forall (fun x => sub (pre ++ flat_map (fun x => f (fst x)) (place_leaves (fun l => N.of_nat (length (f l))) off ls)) (fst (snd x)) (snd (snd x)) = f (fst x))
+         (place_leaves (fun l => N.of_nat (length (f l))) off ls).
 Proof.
   induction ls as [|l r IH]; intros off pre Hp; [constructor|].
   cbn [place_leaves flat_map fst]. constructor.
-  - cbn [fst snd]. subst off. unfold ser_size. apply sub_at.
-  - specialize (IH (off + ser_size l) (pre ++ serialize l)).
-    rewrite <- app_assoc in IH. apply IH. rewrite app_length, Nat2N.inj_add. unfold ser_size. lia.
+  - cbn [fst snd]. subst off. apply sub_at.
+  - specialize (IH (off + N.of_nat (length (f l))) (pre ++ f l)).
+    rewrite <- app_assoc in IH. apply IH. rewrite app_length, Nat2N.inj_add. lia.
 Qed.
 
 Lemma serialize_nonempty es : 0 < ser_size es.
 Proof.
-  unfold ser_size, serialize, serialize_with. rewrite app_length.
+  unfold ser_size, stored_size, stored_bytes, serialize, serialize_with. rewrite app_length.
   pose proof (write_varint_nonempty (N.of_nat (length es))). lia.
 Qed.
 
-Lemma place_sizes : forall ls off, Forall (fun x => 0 < snd (snd x)) (place_leaves ser_size off ls).
-Proof. induction ls as [|l r IH]; intros off; [constructor|]. cbn [place_leaves]. constructor; [apply serialize_nonempty|apply IH]. Qed.
+Lemma place_sizes (f : list entry -> bytes) : (forall l, f l <> []) ->
+  forall ls off, Forall (fun x => 0 < snd (snd x)) (place_leaves (fun l => N.of_nat (length (f l))) off ls).
+Proof.
+  intros Hf. induction ls as [|l r IH]; intros off; [constructor|]. cbn [place_leaves]. constructor; [|apply IH].
+  cbn [snd]. specialize (Hf l). destruct (f l); [congruence|cbn [length]; lia].
+Qed.
 
 (* ---------- what the parts of a runs_ok list inherit ---------- *)
 Lemma runs_ok_nondec es : runs_ok es -> forall last, (match es with [] => True | e :: _ => last <= e_id e end) -> nondec last es.
@@ -89,38 +93,68 @@ Proof.
 Qed.
 
 (* ---------- the written tree is a stored tree ---------- *)
+Section Enc.
+  Variables (enc : bytes -> bytes) (dec : bytes -> option bytes).
+  Hypothesis Hdec : forall b, dec (enc b) = Some b.
+  Hypothesis Henc_ne : forall l : list entry, enc (serialize l) <> [].
+
+  Theorem writer_tree_stored_enc av k es :
+    (0 < k)%nat -> runs_ok es -> Forall entry_ok es -> Forall (fun e => 0 < e_len e /\ 0 < e_run e) es ->
+    N.of_nat (length es) <= 10000000000 ->
+    let d := build_roots_leaves_enc enc k es in
+    stored 1 (read_leaf_dec dec av (d_leaves_bytes d)) (d_root d) es.
+  Proof.
+    intros Hk Hr Hok Hpos Hn d. right.
+    set (cut := cut_leaves (length es) k es).
+    assert (Hcat : concat cut = es) by (apply cut_concat; [exact Hk|lia]).
+    set (placed := place_leaves (stored_size enc) 0 cut).
+    assert (Hfst : map fst placed = cut) by apply place_fst.
+    exists (map (fun x => (x, fst x)) placed).
+    assert (Hm1 : map fst (map (fun x : list entry * (N * N) => (x, fst x)) placed) = placed).
+    { rewrite map_map. cbn [fst]. apply map_id. }
+    rewrite Hm1. split; [rewrite Hfst; symmetry; exact Hcat|]. split; [apply pointer_root_of|].
+    pose proof (place_bytes (stored_bytes enc) cut 0 [] eq_refl) as Hbytes. cbn [app] in Hbytes.
+    change (fun l : list entry => N.of_nat (length (stored_bytes enc l))) with (stored_size enc) in Hbytes. fold placed in Hbytes.
+    pose proof (place_sizes (stored_bytes enc) Henc_ne cut 0) as Hsz.
+    change (fun l : list entry => N.of_nat (length (stored_bytes enc l))) with (stored_size enc) in Hsz. fold placed in Hsz.
+    pose proof (cut_nonempty k Hk (length es) es) as Hne. fold cut in Hne. rewrite <- Hfst in Hne.
+    assert (Hok' : Forall (Forall entry_ok) cut) by (apply In_concat_Forall; rewrite Hcat; exact Hok).
+    assert (Hpos' : Forall (Forall (fun e => 0 < e_len e /\ 0 < e_run e)) cut) by (apply In_concat_Forall; rewrite Hcat; exact Hpos).
+    assert (Hr' : Forall runs_ok cut) by (apply runs_ok_parts; rewrite Hcat; exact Hr).
+    assert (Hlen' : Forall (fun l => (length l <= length es)%nat) cut).
+    { rewrite <- Hcat. apply parts_length. }
+    rewrite <- Hfst in Hok', Hpos', Hr', Hlen'.
+    rewrite Forall_map in Hne, Hok', Hpos', Hr', Hlen'.
+    rewrite Forall_map. rewrite Forall_forall in *.
+    intros x Hx. cbn [fst snd]. split; [split; [exact (Hne x Hx)|exact (Hsz x Hx)]|]. split.
+    - unfold read_leaf_dec. unfold d, build_roots_leaves_enc. cbn [d_leaves_bytes]. fold cut. fold placed.
+      rewrite (Hbytes x Hx). unfold stored_bytes. rewrite Hdec. apply (deserialize_serialize av []); [exact (Hok' x Hx)| |].
+      + apply runs_ok_nondec; [exact (Hr' x Hx)|]. destruct (fst x); [exact I|lia].
+      + specialize (Hlen' x Hx). lia.
+    - left. split; [reflexivity|exact (Hpos' x Hx)].
+  Qed.
+
+  Theorem writer_tree_lookup_enc av k es extra :
+    (0 < k)%nat -> runs_ok es -> Forall entry_ok es -> Forall (fun e => 0 < e_len e /\ 0 < e_run e) es ->
+    N.of_nat (length es) <= 10000000000 ->
+    let d := build_roots_leaves_enc enc k es in
+    forall e t, In e es -> e_id e <= t < e_id e + e_run e ->
+    pm_lookup av (2 + extra) (read_leaf_dec dec av (d_leaves_bytes d)) (d_root d) t = Ok (Some e).
+  Proof.
+    intros Hk Hr Hok Hpos Hn d e t Hin Ht.
+    exact (multi_level_lookup av _ 1 _ es (writer_tree_stored_enc av k es Hk Hr Hok Hpos Hn) Hr e t Hin Ht extra).
+  Qed.
+End Enc.
+
 Theorem writer_tree_stored av k es :
   (0 < k)%nat -> runs_ok es -> Forall entry_ok es -> Forall (fun e => 0 < e_len e /\ 0 < e_run e) es ->
   N.of_nat (length es) <= 10000000000 ->
   let d := build_roots_leaves k es in
   stored 1 (read_leaf av (d_leaves_bytes d)) (d_root d) es.
 Proof.
-  intros Hk Hr Hok Hpos Hn d. right.
-  set (cut := cut_leaves (length es) k es).
-  assert (Hcat : concat cut = es) by (apply cut_concat; [exact Hk|lia]).
-  set (placed := place_leaves ser_size 0 cut).
-  assert (Hfst : map fst placed = cut) by apply place_fst.
-  exists (map (fun x => (x, fst x)) placed).
-  assert (Hm1 : map fst (map (fun x : list entry * (N * N) => (x, fst x)) placed) = placed).
-  { rewrite map_map. cbn [fst]. apply map_id. }
-  rewrite Hm1. split; [rewrite Hfst; symmetry; exact Hcat|]. split; [apply pointer_root_of|].
-  pose proof (place_bytes cut 0 [] eq_refl) as Hbytes. cbn [app] in Hbytes. fold placed in Hbytes.
-  pose proof (place_sizes cut 0) as Hsz. fold placed in Hsz.
-  pose proof (cut_nonempty k Hk (length es) es) as Hne. fold cut in Hne. rewrite <- Hfst in Hne.
-  assert (Hok' : Forall (Forall entry_ok) cut) by (apply In_concat_Forall; rewrite Hcat; exact Hok).
-  assert (Hpos' : Forall (Forall (fun e => 0 < e_len e /\ 0 < e_run e)) cut) by (apply In_concat_Forall; rewrite Hcat; exact Hpos).
-  assert (Hr' : Forall runs_ok cut) by (apply runs_ok_parts; rewrite Hcat; exact Hr).
-  assert (Hlen' : Forall (fun l => (length l <= length es)%nat) cut).
-  { rewrite <- Hcat. apply parts_length. }
-  rewrite <- Hfst in Hok', Hpos', Hr', Hlen'.
-  rewrite Forall_map in Hne, Hok', Hpos', Hr', Hlen'.
-  rewrite Forall_map. rewrite Forall_forall in *.
-  intros x Hx. cbn [fst snd]. split; [split; [exact (Hne x Hx)|exact (Hsz x Hx)]|]. split.
-  - unfold read_leaf. unfold d, build_roots_leaves. cbn [d_leaves_bytes]. fold cut. fold placed.
-    rewrite (Hbytes x Hx). apply (deserialize_serialize av []); [exact (Hok' x Hx)| |].
-    + apply runs_ok_nondec; [exact (Hr' x Hx)|]. destruct (fst x); [exact I|lia].
-    + specialize (Hlen' x Hx). lia.
-  - left. split; [reflexivity|exact (Hpos' x Hx)].
+  intros Hk Hr Hok Hpos Hn.
+  refine (writer_tree_stored_enc (fun b => b) Some (fun b => eq_refl) _ av k es Hk Hr Hok Hpos Hn).
+  intros l Hl. pose proof (serialize_nonempty l) as H. unfold ser_size, stored_size, stored_bytes in H. rewrite Hl in H. cbn in H. lia.
 Qed.
 
 (* every tile entry the writer was given is what the reader's lookup through the written root
@@ -142,7 +176,7 @@ Theorem writer_leaves_partition k es : (0 < k)%nat ->
   concat (map fst (d_leaves (build_roots_leaves k es))) = es /\
   Forall (fun l => l <> [] /\ (length l <= k)%nat) (map fst (d_leaves (build_roots_leaves k es))).
 Proof.
-  intros Hk. unfold build_roots_leaves. cbn [d_leaves]. rewrite place_fst. split; [apply cut_concat; [exact Hk|lia]|].
+  intros Hk. unfold build_roots_leaves, build_roots_leaves_enc. cbn [d_leaves]. rewrite place_fst. split; [apply cut_concat; [exact Hk|lia]|].
   pose proof (cut_nonempty k Hk (length es) es) as H1. pose proof (cut_sizes k Hk (length es) es) as H2.
   rewrite Forall_forall in *. intros l Hl. split; [exact (H1 l Hl)|exact (H2 l Hl)].
 Qed.
@@ -181,13 +215,16 @@ Proof.
   split; [destruct (fst x); [unfold two64; lia|exact H4]|]. split; [lia|]. split; [exact H1|]. split; [exact H2|exact H3].
 Qed.
 
+Lemma place_sizes_id : forall ls off, Forall (fun x => 0 < snd (snd x)) (place_leaves ser_size off ls).
+Proof. induction ls as [|l r IH]; intros off; [constructor|]. cbn [place_leaves]. constructor; [apply serialize_nonempty|apply IH]. Qed.
+
 Lemma place_bounds : forall ls off,
   Forall (fun x => fst (snd x) + snd (snd x) <= off + N.of_nat (length (flat_map (fun x => serialize (fst x)) (place_leaves ser_size off ls))))
          (place_leaves ser_size off ls).
 Proof.
   induction ls as [|l r IH]; intros off; [constructor|]. cbn [place_leaves flat_map fst]. rewrite app_length, Nat2N.inj_add.
-  constructor; [cbn [fst snd]; unfold ser_size; lia|].
-  eapply Forall_impl; [|exact (IH (off + ser_size l))]. cbn beta. intros x Hx. unfold ser_size in *. lia.
+  constructor; [cbn [fst snd]; unfold ser_size, stored_size, stored_bytes; lia|].
+  eapply Forall_impl; [|exact (IH (off + ser_size l))]. cbn beta. intros x Hx. unfold ser_size, stored_size, stored_bytes in *. lia.
 Qed.
 
 Lemma concat_length_le {A} (ls : list (list A)) : Forall (fun l => l <> []) ls -> (length ls <= length (concat ls))%nat.
@@ -202,12 +239,13 @@ Theorem writer_root_parses av k es :
   N.of_nat (length (d_leaves_bytes d)) + 1 < two64 ->
   deserialize av (serialize (d_root d)) = Ok (d_root d).
 Proof.
-  intros Hk Hr Hok Hn d Hb. unfold d, build_roots_leaves in *. cbn [d_root d_leaves_bytes] in *.
+  intros Hk Hr Hok Hn d Hb. unfold d, build_roots_leaves, build_roots_leaves_enc in *. cbn [d_root d_leaves_bytes] in *. change (stored_size (fun b : bytes => b)) with ser_size in *.
+  change (fun x : list entry * (N * N) => stored_bytes (fun b : bytes => b) (fst x)) with (fun x : list entry * (N * N) => serialize (fst x)) in *.
   set (cut := cut_leaves (length es) k es) in *.
   assert (Hcat : concat cut = es) by (apply cut_concat; [exact Hk|lia]).
   set (placed := place_leaves ser_size 0 cut) in *.
   assert (Hfst : map fst placed = cut) by apply place_fst.
-  pose proof (place_sizes cut 0) as Hsz. fold placed in Hsz.
+  pose proof (place_sizes_id cut 0) as Hsz. fold placed in Hsz.
   pose proof (place_bounds cut 0) as Hbd. fold placed in Hbd.
   pose proof (cut_nonempty k Hk (length es) es) as Hne. fold cut in Hne. rewrite <- Hfst in Hne. rewrite Forall_map in Hne.
   assert (Hok' : Forall (Forall entry_ok) cut) by (apply In_concat_Forall; rewrite Hcat; exact Hok).
